@@ -40,6 +40,7 @@ var govsImports = map[string]string{
 var vfsImports = map[string]string{
 	"os":        "verif/vfs/vos",
 	"io/ioutil": "verif/vfs/vioutil",
+	"log":       "verif/vfs/vlog",
 }
 
 func die(format string, a ...any) {
@@ -579,7 +580,9 @@ func (r *rewriter) maySync(e ast.Node) bool {
 	return found
 }
 
-func mkAccess(loc string, write bool, ptr string) access { return access{loc: loc, write: write, ptr: ptr} }
+func mkAccess(loc string, write bool, ptr string) access {
+	return access{loc: loc, write: write, ptr: ptr}
+}
 
 func (r *rewriter) src(e ast.Expr) string {
 	var b bytes.Buffer
@@ -751,6 +754,29 @@ func (r *rewriter) collect(e ast.Node, acc *[]access) {
 		case *ast.BinaryExpr:
 			if x.Op == token.LAND || x.Op == token.LOR {
 				r.collect(x.X, acc)
+				// the right operand is evaluated only sometimes: its accesses are recorded when it is
+				// (x && y  becomes  x && vs.AV(y, accesses of y...))
+				if b, ok := r.info().TypeOf(x).Underlying().(*types.Basic); ok && b.Info()&types.IsBoolean != 0 && !r.skipAccess[x] {
+					if _, named := r.info().TypeOf(x).(*types.Named); !named {
+						r.skipAccess[x] = true
+						var sub []access
+						r.collect(x.Y, &sub)
+						if len(sub) > 0 {
+							args := []ast.Expr{x.Y}
+							for _, a := range sub {
+								suffix := ":r"
+								if a.write {
+									suffix = ":w"
+								}
+								r.needUnsafe = r.needUnsafe || strings.Contains(a.ptr, "unsafe.")
+								args = append(args, call(r.vsSel("A"), ast.NewIdent(a.ptr), str(a.loc+"@"+r.site(x.Pos())+suffix)))
+							}
+							w := call(r.vsSel("AV"), args...)
+							r.skipAccess[w] = true
+							x.Y = w
+						}
+					}
+				}
 				return false
 			}
 		case *ast.UnaryExpr:
@@ -761,12 +787,15 @@ func (r *rewriter) collect(e ast.Node, acc *[]access) {
 				}
 			}
 		case *ast.CallExpr:
+			if r.skipAccess[x] {
+				return false // our own wrapper around a guarded operand
+			}
 			if se, ok := x.Fun.(*ast.SelectorExpr); ok {
 				if sel, ok := r.info().Selections[se]; ok && sel.Kind() == types.MethodVal {
 					if _, _, isHeap := r.heapPath(se.X); isHeap {
 						if cn := containerName(r.info().TypeOf(se.X)); cn != "" {
 							loc, _, _ := r.heapPath(se.X)
-							*acc = append(*acc, mkAccess(loc + "#obj", !containerRO[cn][se.Sel.Name], "vs.P(func() unsafe.Pointer { return " + r.objPtr(se.X) + " })"))
+							*acc = append(*acc, mkAccess(loc+"#obj", !containerRO[cn][se.Sel.Name], "vs.P(func() unsafe.Pointer { return "+r.objPtr(se.X)+" })"))
 						}
 						r.heapAccess(se.X, false, acc)
 						for _, a := range x.Args {
@@ -776,7 +805,7 @@ func (r *rewriter) collect(e ast.Node, acc *[]access) {
 					}
 					if root, p := r.rootAndPath(se.X); root != nil {
 						if cn := containerName(r.info().TypeOf(se.X)); cn != "" {
-							*acc = append(*acc, mkAccess(p + "#obj", !containerRO[cn][se.Sel.Name], r.objPtr(se.X)))
+							*acc = append(*acc, mkAccess(p+"#obj", !containerRO[cn][se.Sel.Name], r.objPtr(se.X)))
 						}
 						*acc = append(*acc, mkAccess(p, false, r.memPtr(se.X)))
 						for _, a := range x.Args {
@@ -808,6 +837,30 @@ func (r *rewriter) collect(e ast.Node, acc *[]access) {
 		}
 		return true
 	})
+}
+
+// wrapCond returns cond, or vs.AV(cond, its accesses...) if evaluating it touches shared locations.
+func (r *rewriter) wrapCond(cond ast.Expr) ast.Expr {
+	if cond == nil || r.skipAccess[cond] {
+		return cond
+	}
+	var sub []access
+	r.collect(cond, &sub)
+	if len(sub) == 0 {
+		return cond
+	}
+	args := []ast.Expr{cond}
+	for _, a := range sub {
+		suffix := ":r"
+		if a.write {
+			suffix = ":w"
+		}
+		r.needUnsafe = r.needUnsafe || strings.Contains(a.ptr, "unsafe.")
+		args = append(args, call(r.vsSel("A"), ast.NewIdent(a.ptr), str(a.loc+"@"+r.site(cond.Pos())+suffix)))
+	}
+	w := call(r.vsSel("AV"), args...)
+	r.skipAccess[w] = true
+	return w
 }
 
 func (r *rewriter) lhsAccess(l ast.Expr, acc *[]access) {
@@ -882,6 +935,19 @@ func (r *rewriter) stmtAccesses(s ast.Stmt) []access {
 	case *ast.IfStmt:
 		if x.Init == nil {
 			r.collect(x.Cond, &acc)
+		} else {
+			// the init statement runs exactly once, right before the condition: its accesses are
+			// hoisted in front of the if; the condition's are recorded when it is evaluated
+			for _, a := range r.stmtAccesses(x.Init) {
+				if !a.after {
+					acc = append(acc, a)
+				}
+			}
+			x.Cond = r.wrapCond(x.Cond)
+		}
+		// else-if chains: the inner statements are not members of a statement list
+		for e, ok := x.Else.(*ast.IfStmt); ok; e, ok = e.Else.(*ast.IfStmt) {
+			e.Cond = r.wrapCond(e.Cond)
 		}
 	case *ast.SwitchStmt:
 		if x.Init == nil {
